@@ -395,6 +395,26 @@ def check_blake2_params(ctx, P):
             last = fn.expr(cmp_[0].args[2])
             ok = ok and last[0] == "agg" and last[1][3] == "Yes"
         ctx.check(ok, "blake2-final", T, "final block: counter += buflen, zero tail, compress(buf, LastBlock::Yes)", "%s::internal_final does not finish with counter += buflen, zero-filled block, last-block flag" % T, where=fn.where(), key="blake2-final:%s" % T)
+        # the digest bytes: after the last compression the WHOLE chaining value is serialised little-endian to the start of
+        # buf (every output length up to 8 words is then a prefix of it); finalize copies buf[0..out.len()]
+        wr = fn.calls_to(r"cryptoutil::write_u(32|64)v_le$")
+        okw = len(wr) == 1 and len(cmp_) == 1 and fn.dominates(cmp_[0].bb, wr[0].bb) and rules.every_ret_path_passes(fn, [wr[0].bb])
+        if okw:
+            dst = pred.canon(fn.expr(wr[0].args[0]), fn)
+            src = pred.canon(fn.expr(wr[0].args[1]), fn)
+            hb = blk // 2
+            okw = dst == "arg1.buf[0..%d]" % hb and src == "arg1.eng.h"
+        ctx.check(okw, "blake2-out", T, "digest = little-endian bytes of all 8 chaining words at buf[0..], written after the final compression", "%s::internal_final does not serialise the whole chaining value (8 words, little-endian) to the start of buf after the final compression: %s" % (T, [(pred.canon(fn.expr(c.args[0]), fn), pred.canon(fn.expr(c.args[1]), fn)) for c in wr]), where=fn.where(), key="blake2-out:%s" % T)
+        for fm in ("finalize_at", "finalize_reset_at", "finalize_reset_with_key_at"):
+            g = P.fn_opt(T + "::" + fm)
+            if g is None:
+                continue
+            cps = [c for c in g.calls() if c.name().endswith("copy_from_slice")]
+            fin = [c for c in g.calls() if c.name().endswith("::internal_final")]
+            okc = len(cps) == 1 and len(fin) == 1 and g.dominates(fin[0].bb, cps[0].bb)
+            if okc:
+                okc = pred.canon(g.expr(cps[0].args[1]), g) in ("arg1.buf[0..len(arg2)]", "arg1.buf[0..len(arg3)]") and pred.canon(g.expr(cps[0].args[0]), g) in ("arg2", "arg3")
+            ctx.check(okc, "blake2-out", "%s::%s" % (T, fm), "out <- buf[0..out.len()] after internal_final", "%s::%s does not copy the first out.len() digest bytes after finalising: %s" % (T, fm, [(pred.canon(g.expr(c.args[0]), g), pred.canon(g.expr(c.args[1]), g)) for c in cps]), where=g.where(), key="blake2-out:%s::%s" % (T, fm))
 
 
 ROT_SPEC = {
